@@ -38,7 +38,7 @@ SYNTHETIC = {
     ]
 }
 
-INT_FULL = [7, 0, -3, 2 ** 31, 2 ** 40, "7", "0", "-3", "abc", "", "7x", None, [7],
+INT_FULL = [7, 0, -3, 2 ** 31, 2 ** 40, "7", "0", "-3", str(2 ** 62 + 1), "abc", "", "7x", None, [7],  # 2^62+1: not representable as a float
             True, 2.0, 2.5, "1.5", " 7 ", "1_0", "+4", b"7"]
 FLOAT_FULL = [0.5, 0.0, -1.5, 1e300, float("inf"), 3, 0, 2 ** 40, "0.5", "3", "-1.5", "1e-3", ".5",
               "abc", "", "0,5", None, [0.5], True, " 0.5 ", "inf", "nan", b"1"]
